@@ -16,7 +16,7 @@ from ..report import short
 from ..gen import Fn
 
 glom = env.bind()
-from glom import (T, M, And, Or, Not, Match, MatchError, Switch, Check, CheckError, Val, GlomError,  # noqa: E402
+from glom import (T, M, And, Or, Not, Match, MatchError, Switch, Check, CheckError, Val, GlomError, Call,  # noqa: E402
                   glom as G)
 
 META = {
@@ -41,12 +41,37 @@ SENT = 'DEFAULT-SENTINEL'
 LISTDEFAULT = 'DEFAULT-LIST-WITH-T'     # stands for default=['dflt', T, {'t': T}]: evaluated against the target in argument mode
 
 
-def _mk_default(d):
-    return ['dflt', T, {'t': T}] if d == LISTDEFAULT else d
+FAILDEFAULT = 'DEFAULT-THAT-CANNOT-BE-EVALUATED'      # stands for default=T['zz_fallback'], which fails on every target generated here
+# ('DEFAULT-LOGGED', tag) stands for default=Call(fn, args=(T,)): a computed default whose evaluation is seen in the predicate log - a default is
+# consulted after a rejection, and only then
+
+
+def _mk_default(d, log=None):
+    if d == LISTDEFAULT:
+        return ['dflt', T, {'t': T}]
+    if d == FAILDEFAULT:
+        return T['zz_fallback']
+    if isinstance(d, tuple) and d[0] == 'DEFAULT-LOGGED':
+        return Call(Fn(d[1], behaviour=lambda t, tag=d[1]: ('computed-default', tag), log=log), args=(T,))
+    return d
 
 
 def _default_value(d, target):
+    if isinstance(d, tuple) and d and d[0] == 'DEFAULT-LOGGED':
+        return ('computed-default', d[1])
     return ['dflt', target, {'t': target}] if d == LISTDEFAULT else d
+
+
+def _pick_default(rng, counter):
+    r = rng.random()
+    if r < 0.4:
+        return SENT
+    if r < 0.6:
+        return LISTDEFAULT
+    if r < 0.8:
+        return FAILDEFAULT
+    counter[0] += 1
+    return ('DEFAULT-LOGGED', 'd%d' % counter[0])
 OPS = {'==': operator.eq, '!=': operator.ne, '>': operator.gt, '<': operator.lt, '>=': operator.ge, '<=': operator.le}
 
 
@@ -136,7 +161,7 @@ def gen_tree(rng, n, depth, counter, log):
     if kind == 'not':
         return ('not', gen_tree(rng, n, depth - 1, counter, log))
     kids = [gen_tree(rng, n, depth - 1, counter, log) for _ in range(rng.randint(1, 3))]
-    default = rng.choice([SENT, LISTDEFAULT]) if rng.random() < 0.2 else None
+    default = _pick_default(rng, counter) if rng.random() < 0.25 else None
     return (kind, kids, default)
 
 
@@ -144,17 +169,17 @@ def supports_ops(spec):
     return hasattr(type(spec), '__and__') and hasattr(type(spec), '__or__') and hasattr(type(spec), '__invert__')
 
 
-def build(node, rng, style):
+def build(node, rng, style, log=None):
     """-> glom spec; style 'ops' uses & | ~ wherever the operands allow"""
     kind = node[0]
     if kind == 'atom':
         return node[1]['spec']
     if kind == 'not':
-        child = build(node[1], rng, style)
+        child = build(node[1], rng, style, log)
         if style == 'ops' and supports_ops(child):
             return ~child
         return Not(child)
-    kids = [build(k, rng, style) for k in node[1]]
+    kids = [build(k, rng, style, log) for k in node[1]]
     default = node[2]
     cls = And if kind == 'and' else Or
     if style == 'ops' and default is None and len(kids) >= 2 and supports_ops(kids[0]):
@@ -166,7 +191,7 @@ def build(node, rng, style):
             return out
     if default is None:
         return cls(*kids)
-    return cls(*kids, default=_mk_default(default))
+    return cls(*kids, default=_mk_default(default, log))
 
 
 def denote(node, target, log):
@@ -195,6 +220,10 @@ def denote(node, target, log):
             if res[0] == 'pass':
                 break
     if res[0] == 'fail' and default is not None:
+        if default == FAILDEFAULT:
+            return ('fail', 'glom')           # the rejection stands, as the error of the default that could not be evaluated
+        if isinstance(default, tuple) and default[0] == 'DEFAULT-LOGGED':
+            log.append(default[1])
         return ('pass', default)
     return res
 
@@ -270,7 +299,7 @@ def tree_case(col, rng, n=None, depth=None):
     ats = atoms(node)
     pure = all(a['m_pure'] for a in ats)
     style = rng.choice(['ctor', 'ops'])
-    spec = build(node, rng, style)
+    spec = build(node, rng, style, log)
     nontrivial = depth_of(node) >= 2 or len(ats) >= 2
     wit = {'tree': desc, 'spec': short(spec), 'style': style}
     if col.want_sample('tree'):
@@ -333,9 +362,9 @@ def switch_case(col, rng):
             fn = Fn(ptag, behaviour=lambda t: True, log=log)
             val = (fn, lambda t: t, ptag)     # a predicate as value spec, evaluated in match mode: returns the target
         cases.append((key, val))
-    default = rng.choice([SENT, LISTDEFAULT]) if rng.random() < 0.3 else None
+    default = _pick_default(rng, counter) if rng.random() < 0.35 else None
     as_dict = rng.random() < 0.4
-    built = [(build(k, rng, 'ctor'), v[0]) for k, v in cases]
+    built = [(build(k, rng, 'ctor', log), v[0]) for k, v in cases]
     if as_dict:
         try:
             d = dict(built)
@@ -343,7 +372,7 @@ def switch_case(col, rng):
                 as_dict = False
         except TypeError:
             as_dict = False
-    kw = {} if default is None else {'default': _mk_default(default)}
+    kw = {} if default is None else {'default': _mk_default(default, log)}
     spec = Switch(dict(built) if as_dict else built, **kw)
     desc = 'Switch(%s%s)' % (', '.join('%s: %s' % (describe(k), short(v[0], 30)) for k, v in cases), ', default' if default else '')
     wit = {'switch': desc}
@@ -366,6 +395,10 @@ def switch_case(col, rng):
                 break
         if want is None:
             want = ('pass', default) if default is not None else ('fail', 'match')
+            if default == FAILDEFAULT:
+                want = ('fail', 'glom')
+            elif isinstance(default, tuple) and default[0] == 'DEFAULT-LOGGED':
+                want_log.append(default[1])
         del log[:]
         got = call(G, target, Match(spec))
         if want[0] == 'pass' and want[1] is target:
